@@ -97,12 +97,46 @@ def try_resolve(p):
         return ('err', classify(e))
 
 
+def _do(storage, step):
+    if step['op'] == 'exists':
+        storage.exists(step['key'])
+    elif step['op'] == 'delete':
+        storage.delete(step['key'])
+    else:
+        fh = storage.file_handle(step['key'], step['filename'], mode=step['mode'])
+        with fh:
+            if any(c in step['mode'] for c in 'wax+'):
+                fh.write(b'W' if 'b' in step['mode'] else 'W')
+            else:
+                fh.read()
+
+
+def _mutate(store, mut):
+    """['symlink', relative path below the storage directory, link target]: whatever is there becomes a symlink."""
+    p = os.path.join(store, mut[1])
+    if os.path.islink(p) or os.path.isfile(p):
+        os.unlink(p)
+    elif os.path.isdir(p):
+        shutil.rmtree(p)
+    os.makedirs(os.path.dirname(p), exist_ok=True)
+    os.symlink(mut[2], p)
+
+
 def run_op(case):
-    """Returns the observation dict for one case on a fresh sandbox."""
+    """Returns the observation dict for one case on a fresh sandbox.  case['pre'] (earlier calls on the same LocalStorage
+    instance) and case['mutate'] (the layout changes after them) come before the observed call: whatever an instance did
+    earlier, every call is judged on the layout it meets."""
     base = tempfile.mkdtemp(dir=subdir('fsbox'))
     try:
         store = build_sandbox(base, case['variant'])
         storage = LocalStorage(store, with_gitignore=False)
+        for step in case.get('pre', []):
+            try:
+                _do(storage, step)
+            except BaseException:   # noqa
+                pass
+        for mut in case.get('mutate', []):
+            _mutate(store, mut)
         root = storage._storage_path
         obs = dict(root=str(root))
         obs['rroot'] = try_resolve(root)
@@ -113,17 +147,7 @@ def run_op(case):
         before = snapshot(base)
         before_etc = os.path.exists('/etc/passwd_lv')
         try:
-            if case['op'] == 'exists':
-                storage.exists(case['key'])
-            elif case['op'] == 'delete':
-                storage.delete(case['key'])
-            else:
-                fh = storage.file_handle(case['key'], case['filename'], mode=case['mode'])
-                with fh:
-                    if any(c in case['mode'] for c in 'wax+'):
-                        fh.write(b'W' if 'b' in case['mode'] else 'W')
-                    else:
-                        fh.read()
+            _do(storage, case)
             obs['outcome'] = None
         except BaseException as e:   # noqa
             obs['outcome'] = classify(e)
@@ -198,7 +222,34 @@ IMPORTS = 'Require Import LT.Model.Values LT.Model.ValuesCheck LT.Model.Paths LT
 VOLUME = {'quick': 500, 'thorough': 6000}
 
 
+def gen_sequence(rng):
+    """An instance that has already served a key (or a file of it) meets the same name again after it became a symlink."""
+    key = rng.choice(['k1', 'k2', 'new', 'k1'])
+    def some_op():
+        op = rng.choice(['exists', 'file', 'file', 'delete'])
+        st = dict(op=op, key=key)
+        if op == 'file':
+            st.update(filename=rng.choice(['f1', 'newfile', 'g', 'canary', 'deep']), mode=rng.choice(['r', 'w', 'a', 'wb']))
+        return st
+    pre = [some_op() for _ in range(rng.randint(1, 3))]
+    pre = [st for st in pre if st['op'] != 'delete' or rng.random() < 0.3] or [dict(op='exists', key=key)]
+    if rng.random() < 0.7:
+        mutate = [['symlink', key, rng.choice(['../outside/odir', '../outside', 'k2', '..'])]]
+    else:
+        mutate = [['symlink', 'k1/f1', rng.choice(['../../outside/canary', '../k2/g'])]]
+        key = 'k1'
+        pre = [dict(op='file', key='k1', filename='f1', mode=rng.choice(['r', 'a']))] + [st for st in pre if st['key'] == 'k1']
+    case = some_op()
+    case['key'] = key
+    if mutate[0][1] == 'k1/f1':
+        case.update(op='file', filename='f1', mode=rng.choice(['r', 'w', 'a']))
+    case.update(variant=rng.choice([0, 0, 1]), pre=pre, mutate=mutate)
+    return case
+
+
 def gen_case(rng):
+    if rng.random() < 0.2:
+        return gen_sequence(rng)
     op = rng.choice(['exists', 'file', 'file', 'file', 'delete'])
     key = rng.choice(KEYS)
     if rng.random() < 0.1:
